@@ -293,6 +293,41 @@ func ReplayOnly() bool { return os.Getenv("VERIF_REPLAY_ONLY") == "1" }
 // written to $VERIF_REPLAY_OUT.hang and the process exits with status 3, which the driver reports as
 // inconclusive (exit 2) — except for C15, which owns "requests never finish" and uses its own
 // structural confirmation.
+// WatchLive is Watch for a check whose property promises an answer: when the case has not finished after d
+// and the goroutines carrying one of the markers are confirmed stalled (ConfirmStall: identical stacks over four
+// samples, nobody running, nothing else in the process active), that is reported as a violation with the case as
+// replay file; an unconfirmed overrun is the usual inconclusive VERIF-HANG.
+func WatchLive(property string, test string, c any, d time.Duration, markers ...string) func() {
+	done := make(chan struct{})
+	go func() {
+		select {
+		case <-done:
+		case <-time.After(d):
+			if stacks, ok := ConfirmStall(4, 2*time.Second, markers...); ok {
+				if len(stacks) > 4000 {
+					stacks = stacks[:4000] + "\n..."
+				}
+				v := Violf("request-never-answered", "the case did not finish within %s and every request goroutine is blocked for good (identical stacks over 6 s, nothing else active):\n%s", d, stacks)
+				if _, known := IsKnown(property, v.Sig); !known {
+					WriteReplay(property, test, c, v)
+					fmt.Printf("VIOLATION %s [%s] %s\n", property, v.Sig, strings.ReplaceAll(v.Msg, "\n", " | "))
+					Flush()
+					os.Exit(1)
+				}
+			}
+			if p := os.Getenv("VERIF_REPLAY_OUT"); p != "" {
+				b, _ := json.Marshal(c)
+				_ = os.WriteFile(p+".hang", b, 0o644)
+			}
+			fmt.Printf("VERIF-HANG case did not finish within %s: %s\n", d, Hash(c))
+			Flush()
+			os.Exit(3)
+		}
+	}()
+
+	return func() { close(done) }
+}
+
 func Watch(c any, d time.Duration) func() {
 	done := make(chan struct{})
 	go func() {
